@@ -262,6 +262,18 @@ def producers(fn, D, o, depth=12, seen=None):
     seen = seen | {l}
     out = set()
     dl = D.defs.get(l, [])
+    # a local whose address is taken mutably can be written through that reference (`helper(&mut k)`): its value is not only what the
+    # visible assignments say
+    mb = getattr(fn, "_mut_borrowed", None)
+    if mb is None:
+        mb = {st["rv"]["pl"]["l"] for b in fn.blocks for st in b["s"]
+              if st["k"] == "=" and st["rv"]["k"] in ("ref", "rawptr") and st["rv"].get("mut") and not [e for e in st["rv"]["pl"]["p"] if e == "*"]}
+        try:
+            fn._mut_borrowed = mb
+        except AttributeError:
+            pass
+    if l in mb and not fn.local_ty(l).startswith("&"):
+        out.add(("?", "written through a &mut borrow", None))
     if 1 <= l <= fn.argc:
         out.add(("arg", fn.local_name(l) or str(l), None))
     elif not dl:
